@@ -1,4 +1,4 @@
 CONSTANTS MaxExt = 3
 SPECIFICATION Spec
-INVARIANTS SoundTraits SoundTranspose SoundFlatten SoundReduce SoundBroadcast
+INVARIANTS SoundTraits SoundTranspose SoundFlatten SoundReduce SoundBroadcast SoundJoin
 CHECK_DEADLOCK FALSE
